@@ -20,6 +20,13 @@ def recurrence_abc(n, alpha, beta):
     i.e. to get a(n-1), do recurrence_abc(n-1)
 
     """
+    # lru_cache compares keys by value and np.float32(0.5) == 0.5 (same hash):
+    # do the arithmetic in python numbers whatever scalar types arrived, so an
+    # entry made by a call with single precision parameters is not handed back,
+    # rounded to single precision, to a later double precision call
+    n = int(n)
+    alpha = float(alpha)
+    beta = float(beta)
     aplusb = alpha+beta
     if n == 0 and (aplusb == 0 or aplusb == -1):
         A = 1/2 * (alpha + beta) + 1
